@@ -160,6 +160,46 @@ def judge_case(ctx, res):
         ctx.nontriv({"schema": schema, "storage": stor, "ops": case["ops"]})
 
 
+def nolib_cases(root):
+    """Directories that hold no library: database_exists() and a failing load must leave them exactly as they were."""
+    cases = []
+    shapes = {"empty": [], "unrelated-file": ["notes.txt"], "p.db-only": ["p.db"], "empty-Database2": ["Database2/"],
+              "Database2-other-file": ["Database2/", "Database2/other.db"]}
+    for name, entries in shapes.items():
+        d = os.path.join(root, "nolib-" + name)
+        os.makedirs(d, exist_ok=True)
+        for e in entries:
+            if e.endswith("/"):
+                os.makedirs(os.path.join(d, e), exist_ok=True)
+            else:
+                open(os.path.join(d, e), "w").write("x" * 10)
+        cases.append({"id": "nolib-" + name, "schema": "-", "_nolib": name, "_disk": True, "dir": d, "_marks": [],
+                      "ops": [{"op": "file_digest", "dir": d}, {"op": "exists", "dir": d}, {"op": "load", "dir": d},
+                              {"op": "exists", "dir": d + "/"}, {"op": "file_digest", "dir": d}]})
+    d = os.path.join(root, "nolib-missing")
+    cases.append({"id": "nolib-missing", "schema": "-", "_nolib": "missing", "_disk": True, "dir": None, "_marks": [],
+                  "ops": [{"op": "file_digest", "dir": root + "/does-not-exist"}, {"op": "exists", "dir": root + "/does-not-exist"},
+                          {"op": "load", "dir": root + "/does-not-exist"}, {"op": "exists", "dir": root + "/does-not-exist/"},
+                          {"op": "file_digest", "dir": root + "/does-not-exist"}]})
+    return cases
+
+
+def judge_nolib(ctx, res):
+    name = res.case["_nolib"]
+    ev = res.events
+    ctx.count()
+    ctx.bump_in("no_library_directories", name)
+    wit = {"ops": res.case["ops"], "shape": name}
+    if res.crash or len(ev) < 5:
+        ctx.violation(f"op-did-not-complete nolib {name}", "probing a directory without a library did not complete", wit)
+        return
+    if ev[0].get("ret") != ev[4].get("ret"):
+        ctx.violation(f"files-changed-by-probing-nolib {name}",
+                      f"database_exists()/load_database() on a directory without a library ({name}) changed it: {ev[0].get('ret')} -> {ev[4].get('ret')}", wit)
+    if ev[1].get("ret") is not False or ev[3].get("ret") is not False:
+        ctx.violation(f"exists-true-without-library {name}", f"database_exists() is not false for a directory without a library ({name})", wit)
+
+
 def run(ctx):
     per = 40 if ctx.tier == "quick" else 600
     root = runner.scratch_dir("djc16_")
@@ -176,10 +216,11 @@ def run(ctx):
         ctx.sample({"schema": cases[0]["schema"], "block": [m for m in cases[0]["_marks"] if m]})
         ctx.assumptions += ["the verdict is total_changes + table digests + file digests + repeatability; the count of "
                             "non-read-only statements stepped during observation is logged only (an UPDATE that matches nothing modifies nothing)"]
-        runner.run_cases(cases, cfg="plain", on_result=lambda r: judge_case(ctx, r))
+        nol = nolib_cases(root)
+        runner.run_cases(cases + nol, cfg="plain", on_result=lambda r: judge_nolib(ctx, r) if r.case.get("_nolib") else judge_case(ctx, r))
     finally:
         shutil.rmtree(root, ignore_errors=True)
-    seen = set(ctx.extra.get("cases_by_schema", {}))
+    seen = set(ctx.extra.get("cases_by_schema", {})) - {"-"}
     if seen != set(ALL_SCHEMAS):
         ctx.fail_harness("schema versions not covered: %s" % sorted(set(ALL_SCHEMAS) - seen))
     if set(ctx.extra.get("cases_by_storage", {})) != {"disk", "memory"}:
